@@ -13,6 +13,13 @@ func BeginBlocker(ctx sdk.Context, k keeper.Keeper) {
 	defer telemetry.ModuleMeasureSince(types.ModuleName, time.Now(), telemetry.MetricKeyBeginBlocker)
 	subDistributors := k.GetParams(ctx).SubDistributors
 	states := k.GetAllStates(ctx)
+	for i := range states {
+		if states[i].Burn && states[i].Account == nil {
+			// a burn state imported from an exported genesis (or written by the store migration)
+			// carries no account; the distribution code below expects an empty one
+			states[i].Account = &types.Account{}
+		}
+	}
 	failedSweeps := make(map[string]bool)
 
 	for _, subDistributor := range subDistributors {
